@@ -69,9 +69,23 @@ def run(ctx, rep):
             g = fc.guards(lambda ce: 0 if (ce.expr[0] == "discr" and E.is_call(ce.expr[1], "Iterator::find") and E.mentions_field(ce.expr[1], "registered_instance_info")) else None)
             add("R28b", "register adds an entry only when the instance is not yet registered", bool(pushes) and bool(g) and fc.only_through(pushes, g),
                 "push reachable on the already-registered arm (register_instance not idempotent)")
+            oor = [bb for bb, i, s in fc.aggregates("DdsError", "OutOfResources")]
+            add("R28b", "OutOfResources (max_instances) only for an instance that is not yet registered", bool(oor) and bool(g) and fc.only_through(oor, g),
+                "the max_instances limit is tested before / independently of the already-registered lookup: registering a known instance again fails once the table is full")
             oks = [fc.rv_expr(s) for bb, i, s in fc.aggregates("Option", "Some")]
             add("R28c", "returned handle is the computed instance handle", any(E.mentions_call(e, "get_instance_handle_from_key_holder_data") for e in oks),
                 "Ok(Some(..)) does not carry the key-derived handle")
+    # R28e: "is this a keyed topic" is decided by the same walk as the key holder: is_key members at any nesting depth of
+    # non-optional structures (the IllegalOperation replies above depend on it)
+    tk = [b for b in fx.bodies.values() if b.item_name == "from" and (b.impl_self or "").endswith("TopicKind") and b.is_fn_like() and "key_and_instance_handle" in b.sname]
+    rep.floor("R28e", len(tk), 1, "TopicKind::from(&DynamicType)")
+    for b in tk:
+        fc = FnCtx(b)
+        rec = [bb for bb, t in fc.mir.calls() if not t.callee.indirect and (t.callee.res_id == b.id or (t.callee.method() == "from" and (t.callee.trait or "").endswith("From") and "TopicKind" in (fc.mir.locals[t.dest.local] if t.dest is not None else "")))]
+        walks = [x for x in fx.bodies.values() if x.item_name == "fill_struct_key_holder_type" and x.is_fn_like()]
+        sib_rec = all(any(not t.callee.indirect and t.callee.res_id == w.id for bb, t in FnCtx(w).mir.calls()) for w in walks)
+        adder(rep, b)("R28e", "TopicKind::from descends into nested structures like the key-holder walk does", bool(rec) and bool(walks) and sib_rec,
+                      "no recursive descent: a key nested more than one level deep makes the topic look keyless (register / dispose / lookup reply IllegalOperation) while the key holder still finds it")
     lk = fx.fn("DcpsDomainParticipant", "lookup_instance")
     check(fx, rep, lk, False)
     n += 1
